@@ -452,6 +452,8 @@ def cmd_check(args):
             path, found = replay.make_replay(pid, v, tier)
             vio_lines.append(f"VIOLATION property={pid} replay={path}" + ("" if found else " no-failing-input-found"))
 
+    if not obligations and not bounded and not undecided:
+        undecided.append("no obligations were generated for this property (vacuity guard)")
     n_obl = len(obligations)
     n_dis = sum(1 for o in obligations if o["status"] == "discharged")
     level = conf.get("level", "proof")
